@@ -22,8 +22,9 @@ RULES["C01"] = (
     "interleaved with mutators apply_transform(every matrix class incl. mirror/anisotropic/shear), apply_scale, "
     "apply_translation, rezero, invert, update_faces(bool|int|int with repeats), update_vertices, merge_vertices, "
     "remove_unreferenced_vertices, unmerge_vertices, remove_infinite_values, process, fix_normals, fill_holes, in-place "
-    "vertex/face edits, reassignment, density/center_mass overrides, copy(include_cache)/copy.copy/deepcopy. Two "
-    "drivers: an enumerated depth-1 matrix (warm set in {none, each single value, all} x mutator x start mesh) and "
+    "vertex/face edits, reassignment, density/center_mass overrides, copy(include_cache)/copy.copy/deepcopy, and "
+    "there-and-back pairs (an edit, reads, the bit-exact inverse edit: the arrays return to earlier bytes) on objects "
+    "that are raw, default-processed, copied or just moved. Drivers: an enumerated depth-1 matrix (warm set in {none, each single value, all} x mutator x start mesh) and "
     "Hypothesis histories (<=10 steps). Oracle: every value equals that of Trimesh(vertices.copy(), faces.copy(), "
     "process=False) with the same overrides. Non-trivial: read(P) ... effective mutator ... read(Q); distinct by "
     "(warm value, mutator, start mesh) triple or history."
@@ -71,7 +72,16 @@ def build_start(spec):
     kw = {}
     if spec.get("ctor_normals"):
         kw["face_normals"] = true_normals(V, F)
-    m = trimesh.Trimesh(V.copy(), F.copy(), process=False, **kw)
+    ctor = spec.get("ctor", "raw")
+    if ctor == "process":
+        # the default constructor path: process() runs, so the cache has been verified (and emptied) once already
+        m = trimesh.Trimesh(V.copy(), F.copy(), **kw)
+    else:
+        m = trimesh.Trimesh(V.copy(), F.copy(), process=False, **kw)
+        if ctor == "copy":
+            m = m.copy()
+        elif ctor == "moved":
+            m.apply_translation([0.5, -0.25, 1.0])
     return m
 
 
@@ -303,6 +313,42 @@ def b_history(case, ctx):
                 last = f"inplace:write_through_held_view:{which}"
                 labels.append("inplace:held_view")
                 continue
+            if op[0] == "there_and_back":
+                # an edit, reads, then the bit-exact inverse edit: the stored arrays are back at earlier bytes and every
+                # derived value must be the one of those bytes again
+                kind, names = op[1], op[2]
+                nf = len(m.faces)
+                if kind.startswith("faces") and nf < 2:
+                    continue
+                b0 = _data_state(m)
+                saved_v, saved_f = np.array(m.vertices).copy(), np.array(m.faces).copy()
+                if kind == "mul2":
+                    m.vertices *= 2.0
+                elif kind == "neg":
+                    m.vertices *= -1.0
+                elif kind == "faces_flipcols":
+                    m.faces = saved_f[:, ::-1].copy()
+                elif kind == "faces_subset":
+                    m.faces = saved_f[: max(1, nf - 1)].copy()
+                else:
+                    m.vertices = saved_v * 3.0 + 1.0
+                for n in names:
+                    mv.read(m, n)
+                if kind == "mul2":
+                    m.vertices *= 0.5
+                elif kind == "neg":
+                    m.vertices *= -1.0
+                elif kind.startswith("faces"):
+                    m.faces = saved_f
+                else:
+                    m.vertices = saved_v
+                check(_data_state(m) == b0, "C01|harness|there_and_back_not_exact", kind)
+                last = f"there_and_back:{kind}"
+                labels.append("there_and_back" + (":nothing_read_before" if not warm else ""))
+                compare(m, overrides, names, f"step {si}", last, warm[:12], vn_atol)
+                warm = list(dict.fromkeys(warm + list(names)))[-60:]
+                nontrivial = True
+                continue
             if op[0] == "check":
                 compare(m, overrides, op[1], f"step {si}", last, warm[:12], vn_atol)
                 warm = list(dict.fromkeys(warm + list(op[1])))[-60:]
@@ -353,6 +399,7 @@ def start_spec(draw):
     if draw(st.integers(0, 2)) == 0:
         spec["dirty"] = draw(st.lists(st.sampled_from(["dup_vertex", "unreferenced", "degenerate", "dup_face"]), min_size=1, max_size=3, unique=True))
     spec["ctor_normals"] = draw(st.booleans())
+    spec["ctor"] = draw(st.sampled_from(["raw", "raw", "process", "copy", "moved"]))
     return spec
 
 
@@ -420,8 +467,10 @@ def history(draw):
     n = draw(st.integers(2, 10))
     names = st.lists(st.sampled_from(mv.MEDIUM), min_size=1, max_size=6, unique=True)
     for _ in range(n):
-        t = draw(st.sampled_from(["read", "read", "check", "mut", "mut", "mut", "hold", "write_held"]))
-        if t == "hold":
+        t = draw(st.sampled_from(["read", "read", "check", "mut", "mut", "mut", "mut", "hold", "write_held", "there_and_back"]))
+        if t == "there_and_back":
+            ops.append(["there_and_back", draw(st.sampled_from(["mul2", "neg", "faces_flipcols", "faces_subset", "reassign"])), draw(names)])
+        elif t == "hold":
             ops.append(["hold", draw(st.sampled_from(["v", "v", "f"])), draw(st.lists(st.sampled_from(["rows", "col", "flat", "step", "row0", "T"]), min_size=1, max_size=3))])
         elif t == "write_held":
             ops.append(["write_held", draw(st.sampled_from([0.5, -1.25, 2.0]))])
@@ -441,6 +490,21 @@ DEPTH1_STARTS = [
     {"mesh": {"parts": [{"kind": "torus", "nu": 4, "nv": 3, "R": 2.0, "r": 0.6}, {"kind": "tetra", "offset": [12.0, 0, 0], "scale": 2.0}]}, "ctor_normals": False},
     {"mesh": {"parts": [{"kind": "prism", "radii": [1.0, 0.5, 1.2, 0.6, 0.9], "height": 1.5}], "jseed": 5, "jamp": 0.02}, "drop": [3], "dirty": ["unreferenced", "dup_vertex"], "ctor_normals": False},
 ]
+
+
+DEPTH1_STARTS.append({"mesh": {"parts": [{"kind": "icos", "sub": 1}], "jseed": 7, "jamp": 0.03}, "drop": [5, 23, 60], "ctor_normals": False})
+
+
+def there_and_back_cases():
+    """cold object (constructed / copied / moved, nothing read), edit, read, exact inverse edit, read again"""
+    for start in DEPTH1_STARTS[:3]:
+        for ctor in ("raw", "process", "copy", "moved"):
+            for kind in ("mul2", "neg", "faces_flipcols", "faces_subset", "reassign"):
+                for names in (["area"], ["bounds"], ["volume"], ["face_normals"], ["triangles_center", "area_faces"], ["edges_unique", "face_adjacency"], "MEDIUM"):
+                    nm = mv.MEDIUM if names == "MEDIUM" else names
+                    for pre in (None, ["extents"]):
+                        ops = ([["read", pre]] if pre else []) + [["there_and_back", kind, nm]]
+                        yield {"start": dict(start, ctor=ctor), "ops": ops, "final": "MEDIUM"}
 
 
 def _rot(axis, ang, t=(0, 0, 0)):
@@ -564,6 +628,11 @@ def s_held(ctx):
     ctx.enumerate("C01.history", held_view_cases(), label="held_view_chains_x_warm_sets_and_edit_then_copy")
 
 
+@subcheck("C01", "there_and_back", shards={"quick": 4, "thorough": 4})
+def s_tab(ctx):
+    ctx.enumerate("C01.history", there_and_back_cases(), label="ctor_x_edit_and_exact_inverse_x_values_read_in_between")
+
+
 @subcheck("C01", "depth1_matrix", shards={"quick": 12, "thorough": 16})
 def s_depth1(ctx):
     if ctx.tier == "quick":
@@ -591,4 +660,4 @@ def s_hist(ctx):
     ctx.given("C01.history", history(), n={"quick": 700, "thorough": 20000})
 
 
-REQUIRED_CLASSES["C01"] = ["inplace:held_view", "apply_transform:mirror", "apply_transform:anisotropic", "invert", "update_faces:bool", "copy:copy_cache", "inplace:face_reversed"]
+REQUIRED_CLASSES["C01"] = ["inplace:held_view", "apply_transform:mirror", "apply_transform:anisotropic", "invert", "update_faces:bool", "copy:copy_cache", "inplace:face_reversed", "there_and_back:nothing_read_before", "fill_holes"]
